@@ -47,6 +47,15 @@ SlAddDefined(f, a, b)      == \A i \in 1..Len(a) : FrAddDefined(f, a[i], b[i])
 SlAddAmpDefined(f, a, b, amp) ==
   \A i \in 1..Len(a) : /\ FrMulDefined(SignedOf(f), b[i], amp)
                        /\ FrAddDefined(f, a[i], FrMul(SignedOf(f), b[i], amp))
+\* The same operation as a RELATION between the destination before and after (equal lengths), which also speaks about
+\* the gain 1.0 on the top values of the Signed format (Frames.tla, AddMulOk): wherever SlAddAmpDefined holds it is
+\* exactly `after = SlAddAmp(f, a, b, amp).a`.
+SlAddAmpClaimed(f, a, b, amp) ==
+  \A i \in 1..Len(a) : \A c \in 1..Len(a[i]) : AddMulClaimed(f, a[i][c], b[i][c], amp[c])
+SlAddAmpOk(f, a, b, amp, after) ==
+  /\ Len(after) = Len(a)
+  /\ \A i \in 1..Len(a) : /\ Len(after[i]) = Len(a[i])
+                          /\ \A c \in 1..Len(a[i]) : AddMulOk(f, a[i][c], b[i][c], amp[c], after[i][c])
 \* closures of map_in_place / zip_map_in_place are FnMut: called once per element, first to last
 SlMapCalls(a)       == a
 SlZipMapCalls(a, b) == IF Len(a) = Len(b) THEN [i \in 1..Len(a) |-> << a[i], b[i] >>] ELSE << >>
